@@ -74,6 +74,11 @@ impl CallMatch<()> for AssertMatcher {
     }
 }
 
+#[cfg(feature = "verif")]
+pub(crate) fn verif_assert_matches(identifiers: &IdentifierTracker, prefix: &Prefix) -> bool {
+    AssertMatcher.matches(identifiers, prefix)
+}
+
 impl FlawlessRule for RemoveAssertions {
     fn flawless_process(&self, block: &mut Block, _: &Context) {
         let mut processor =
